@@ -73,12 +73,34 @@ def phases(tier: str) -> List[Dict[str, Any]]:
         return [
             {"name": "nofault", "runs": 8000, "batch": 125, "timeout": 240, "wall": 100},
             {"name": "faults", "runs": 8000, "batch": 125, "timeout": 240, "wall": 100},
+            {"name": "known", "runs": 3, "explicit": True, "timeout": 240, "wall": 60},
         ]
     return [
         {"name": "nofault", "runs": 120000, "batch": 500, "timeout": 1200, "wall": 900},
         {"name": "faults", "runs": 120000, "batch": 500, "timeout": 1200, "wall": 900},
         {"name": "restart_real", "runs": 160, "batch": 5, "timeout": 600, "wall": 600},
+        {"name": "known", "runs": 3, "explicit": True, "timeout": 240, "wall": 60},
     ]
+
+
+def explicit_plans(tier: str, phase: str) -> List[Dict[str, Any]]:
+    """Deterministic probe of the recorded finding D17: dtype conversion under
+    torch.__future__.set_overwrite_module_params_on_conversion(True)."""
+    plans = []
+    for kind, dtype in (("linear", "float64"), ("layernorm", "float16"), ("holder", "bfloat16()")):
+        create = {"op": "create", "kind": kind, "tseed": 5, "dims": [3, 4], "flag": True,
+                  "tag": "output", "depth": 7, "shape": [2, 3]}
+        plans.append({"phase": "known", "overwrite_params_on_conversion": True, "timeout": 300, "shrink_budget": 0,
+                      "ops": [create, {"op": "to", "h": 0, "dtype": dtype}]})
+    return plans
+
+
+def neutralise(plan: Dict[str, Any], finding: Dict[str, Any]) -> Optional[Dict[str, Any]]:
+    if finding.get("id") == "D17" and plan.get("overwrite_params_on_conversion"):
+        c = copy.deepcopy(plan)
+        c["overwrite_params_on_conversion"] = False  # counterfactual: torch's default conversion mode
+        return c
+    return None
 
 
 # ------------------------------------------------------------------------------------
@@ -434,6 +456,8 @@ def execute(plan: Dict[str, Any]) -> Dict[str, Any]:
 
     res = empty_result()
     log = core.EventLog()
+    overwrite = bool(plan.get("overwrite_params_on_conversion"))
+    torch.__future__.set_overwrite_module_params_on_conversion(overwrite)
     handles: List[Handle] = []
     faults: Dict[str, Dict[str, int]] = {}
     probes: Dict[str, int] = {}
@@ -682,7 +706,12 @@ def execute(plan: Dict[str, Any]) -> Dict[str, Any]:
             else:
                 raise ValueError(k)
             res["opseq"].append(tagk)
-            check_all(where)
+            try:
+                check_all(where)
+            except Violation as v:
+                if overwrite and k == "to" and v.invariant in ("tags_preserved", "is_parameter"):
+                    raise Violation("tags_preserved", "lost_on_conversion_with_overwrite_flag", v.detail)
+                raise
             record(op)
     except Violation as v:
         res["violation"] = v.as_dict()
